@@ -1,39 +1,42 @@
-"""Property id -> engine module, claimed level, tier sizes (runs are fixed counts, wall is a safety cap)."""
+"""Property id -> engine module, claimed level, tier sizes (runs are fixed counts, wall is a safety cap).
+
+Thorough counts are sized to about ten minutes on 16 idle cores each, so that every registered thorough command could be re-run to completion on
+the final tree (a thorough check that was never seen to finish cleanly would be an unknown, not a deeper check)."""
 import importlib
 
 REGISTRY = {
     "C20": {"engine": "sim.trainsim", "level": "exploration",
-            "tiers": {"quick": {"runs": 480, "wall": 420}, "thorough": {"runs": 12000, "wall": 3300}}},
+            "tiers": {"quick": {"runs": 480, "wall": 420}, "thorough": {"runs": 6000, "wall": 1800}}},
     "C17": {"engine": "sim.rollsim", "level": "exploration",
-            "tiers": {"quick": {"runs": 2400, "wall": 300}, "thorough": {"runs": 60000, "wall": 3000}}},
+            "tiers": {"quick": {"runs": 2400, "wall": 300}, "thorough": {"runs": 24000, "wall": 1800}}},
     "C12": {"engine": "sim.vecsim", "level": "exploration",
-            "tiers": {"quick": {"runs": 16000, "wall": 300}, "thorough": {"runs": 400000, "wall": 3000}}},
+            "tiers": {"quick": {"runs": 16000, "wall": 300}, "thorough": {"runs": 200000, "wall": 1800}}},
     "C13": {"engine": "sim.vecsim", "level": "fault_enumeration",
-            "tiers": {"quick": {"runs": 9000, "wall": 300}, "thorough": {"runs": 6000, "wall": 3000}}},
+            "tiers": {"quick": {"runs": 9000, "wall": 300}, "thorough": {"runs": 4000, "wall": 1800}}},
     "C03": {"engine": "sim.modsim", "level": "exploration",
-            "tiers": {"quick": {"runs": 2000, "wall": 300}, "thorough": {"runs": 40000, "wall": 3000}}},
+            "tiers": {"quick": {"runs": 2000, "wall": 300}, "thorough": {"runs": 24000, "wall": 1800}}},
     "C04": {"engine": "sim.modsim", "level": "exploration",
-            "tiers": {"quick": {"runs": 2000, "wall": 300}, "thorough": {"runs": 40000, "wall": 3000}}},
+            "tiers": {"quick": {"runs": 2000, "wall": 300}, "thorough": {"runs": 24000, "wall": 1800}}},
     "C19": {"engine": "sim.world", "level": "exploration",
-            "tiers": {"quick": {"runs": 1500, "wall": 300}, "thorough": {"runs": 30000, "wall": 3000}}},
+            "tiers": {"quick": {"runs": 1500, "wall": 300}, "thorough": {"runs": 20000, "wall": 1800}}},
     "C07": {"engine": "sim.world", "level": "fault_enumeration",
-            "tiers": {"quick": {"runs": 240, "wall": 300}, "thorough": {"runs": 3000, "wall": 3000}}},
+            "tiers": {"quick": {"runs": 240, "wall": 300}, "thorough": {"runs": 1600, "wall": 1800}}},
     "C08": {"engine": "sim.world", "level": "exploration",
-            "tiers": {"quick": {"runs": 320, "wall": 300}, "thorough": {"runs": 8000, "wall": 3000}}},
+            "tiers": {"quick": {"runs": 320, "wall": 300}, "thorough": {"runs": 1500, "wall": 1800}}},
     "C02": {"engine": "sim.world", "level": "exploration",
-            "tiers": {"quick": {"runs": 400, "wall": 300}, "thorough": {"runs": 10000, "wall": 3000}}},
+            "tiers": {"quick": {"runs": 400, "wall": 300}, "thorough": {"runs": 4000, "wall": 1800}}},
     "C05": {"engine": "sim.world", "level": "exploration",
-            "tiers": {"quick": {"runs": 320, "wall": 300}, "thorough": {"runs": 8000, "wall": 3000}}},
+            "tiers": {"quick": {"runs": 320, "wall": 300}, "thorough": {"runs": 2000, "wall": 1800}}},
     "C06": {"engine": "sim.world", "level": "exploration",
-            "tiers": {"quick": {"runs": 480, "wall": 300}, "thorough": {"runs": 12000, "wall": 3000}}},
+            "tiers": {"quick": {"runs": 480, "wall": 300}, "thorough": {"runs": 6000, "wall": 1800}}},
     "C01": {"engine": "sim.world", "level": "exploration",
-            "tiers": {"quick": {"runs": 480, "wall": 300}, "thorough": {"runs": 12000, "wall": 3000}}},
+            "tiers": {"quick": {"runs": 480, "wall": 300}, "thorough": {"runs": 2400, "wall": 1800}}},
     "C09": {"engine": "sim.bufsim", "level": "exploration",
-            "tiers": {"quick": {"runs": 6000, "wall": 240}, "thorough": {"runs": 200000, "wall": 2400}}},
+            "tiers": {"quick": {"runs": 6000, "wall": 240}, "thorough": {"runs": 150000, "wall": 1800}}},
     "C10": {"engine": "sim.bufsim", "level": "exploration",
-            "tiers": {"quick": {"runs": 1600, "wall": 240}, "thorough": {"runs": 60000, "wall": 2400}}},
+            "tiers": {"quick": {"runs": 1600, "wall": 240}, "thorough": {"runs": 16000, "wall": 1800}}},
     "C11": {"engine": "sim.bufsim", "level": "exploration",
-            "tiers": {"quick": {"runs": 6000, "wall": 240}, "thorough": {"runs": 200000, "wall": 2400}}},
+            "tiers": {"quick": {"runs": 6000, "wall": 240}, "thorough": {"runs": 150000, "wall": 1800}}},
 }
 
 _T = "deterministic simulation: seeded search over operation / fault histories executed against the real code, "
